@@ -97,6 +97,10 @@ func e2eSharedClient(e *core.Env, node *simnode.Node, chain *simnode.Chain) {
 		// a header-level plan first, then a block-level plan on the same range (and the reverse)
 		{{"log", []string{"block_time"}, "transfer"}, {"tx", []string{"tx_input", "tx_value", "block_time"}, ""}},
 		{{"tx", []string{"tx_input", "block_time"}, ""}, {"log", []string{"block_time"}, "transfer"}, {"tx", []string{"tx_nonce", "tx_to"}, ""}},
+		// a logs-plan integration first, then a RECEIPTS-plan integration of the other event on the same cached
+		// segment (the receipts carry every log of the transaction, the earlier request attached only its own), and the reverse
+		{{"log", []string{"block_time"}, "transfer"}, {"log", []string{"block_time", "tx_status"}, "approval"}},
+		{{"log", []string{"block_time", "tx_status"}, "approval"}, {"log", []string{"block_time"}, "transfer"}, {"log", []string{"block_time", "tx_gas_used"}, "transfer"}},
 		// receipts and traces attached twice to the same cached blocks
 		{{"tx", []string{"tx_status", "tx_input"}, ""}, {"tx", []string{"tx_status", "tx_gas_used", "tx_input"}, ""}},
 		{{"trace", []string{"trace_action_value", "tx_hash"}, ""}, {"trace", []string{"trace_action_from", "trace_action_value", "tx_hash"}, ""}},
